@@ -356,6 +356,12 @@ func (r *Reader) parseWorksheet(data []byte, name string, index int) (*Sheet, er
 				cell.Type = CellTypeString
 				if cellXML.Is != nil {
 					cell.Value = cellXML.Is.T
+					if cell.Value == "" {
+						// Rich text - concatenate all runs
+						for _, run := range cellXML.Is.R {
+							cell.Value += run.T
+						}
+					}
 				}
 			default: // Number or empty
 				if cellXML.V != "" {
